@@ -6,6 +6,7 @@
 package main
 
 import (
+	"bytes"
 	"flag"
 	"fmt"
 	"net/http"
@@ -13,6 +14,7 @@ import (
 	"path/filepath"
 	"strconv"
 	"strings"
+	"sync/atomic"
 	"time"
 
 	"verifharness/e2elib"
@@ -227,7 +229,10 @@ func main() {
 					meta.Record(fmt.Sprintf("%s|%d|%d|%v|%s|%s", spec, size, irKind, retry, backend, transport), nontriv,
 						map[string]any{"range": spec, "has_range": hasRange, "size": size, "if_range_kind": irKind, "retry": retry, "backend": backend, "transport": transport, "origin_chunked": chunked[path], "observed": obsShort(obs)})
 				}
-				if retry {
+				for _, originDrops := range []bool{false, true} {
+					if !retry {
+						break
+					}
 					// the retry without Range meets an entry that is ALREADY STALE when it is stored (lifetime 1 s, the
 					// body takes longer): the retry is revalidated (304); the client still gets the full 200
 					caseNo++
@@ -236,7 +241,12 @@ func main() {
 					etag := fmt.Sprintf("\"e%d\"", caseNo)
 					env.Cfg.Proxy.CachePolicy.ForceDefaultMaxAge.Overwrite(false) // the origin's own (short) lifetime counts
 					env.Cfg.Proxy.CachePolicy.IgnoreCacheControl.Overwrite(false)
+					var hits atomic.Int32
 					env.Origin.SetHandler(func(req e2elib.OriginRequest, n int) e2elib.Answer {
+						if hits.Add(1) > 1 && originDrops {
+							// every later request (the revalidation of the retry included): the connection is closed without an answer
+							return e2elib.Answer{Raw: []byte{}}
+						}
 						if req.Header.Get("If-None-Match") != "" || req.Header.Get("If-Modified-Since") != "" {
 							return e2elib.NewAnswer(304, nil, "ETag: "+etag, "Cache-Control: max-age=1")
 						}
@@ -277,6 +287,24 @@ func main() {
 						default:
 							obs = fmt.Sprintf("(OOther %d)", resp.Status)
 						}
+					}
+					if originDrops {
+						// the re-fetch fails: an explicit error status, a 416 with the size or the complete 200 are honest
+						// answers; an empty 200, a part or no answer at all are not
+						ok := rerr == nil && resp.BodyErr == "" && (resp.Status >= 500 ||
+							(resp.Status == 416 && resp.Header.Get("Content-Range") == "bytes */10") ||
+							(resp.Status == 200 && bytes.Equal(resp.Body, body)))
+						if !ok {
+							what := fmt.Sprint(rerr)
+							if rerr == nil {
+								what = fmt.Sprintf("%d with %d body bytes, Content-Range %q, body error %q", resp.Status, len(resp.Body), resp.Header.Get("Content-Range"), resp.BodyErr)
+							}
+							meta.DirectFail(fmt.Sprintf("range outside the stored 10 bytes, retry_on_invalid_range on, the origin drops the connection on the re-fetch (backend %s, tls %v): the client got %s — neither an error status, a 416 with the size, nor the complete 200", backend, tlsOn, what))
+						}
+						meta.Count("retry_refetch_fails", backend)
+						meta.Record(fmt.Sprintf("stale-retry-origin-drops|%s|%v", backend, tlsOn), true,
+							map[string]any{"range": spec, "size": 10, "retry": true, "backend": backend, "origin_drops_on_refetch": true, "observed": obsShort(obs)})
+						continue
 					}
 					st := fmt.Sprintf("{| st_size := 10; st_etag := %s; st_lastmod := %s |}", emit.Str(etag), emit.Z(lastMod.Unix()))
 					w.Add(fmt.Sprintf("EC true (Some %s) IRNone %s %s %s", emit.Str(spec), st, emit.Bytes(body), obs))
